@@ -115,11 +115,12 @@ Age(cache, d) ==
         IF cache[p].ttl > d THEN [ttl |-> cache[p].ttl - d, hs |-> cache[p].hs]
         ELSE [ttl |-> 0, hs |-> {}]]
 
-\* The choice the present implementation is expected to make (used only to
-\* PLAN replay walks and as a sanity check of the rules above -- it must
-\* always be admissible; it is never used as the oracle): whole chain for
-\* private suffixes; nothing is asked when an unexpired entry already holds a
-\* match, otherwise exactly the prefixes without an unexpired entry.
+\* The choice an implementation that remembers everything it may remember
+\* would make (a sanity check of the rules above -- it must always be
+\* admissible -- and the base of HashPrefix.tla's planning model; never the
+\* oracle): whole chain for private suffixes; nothing is asked when an
+\* unexpired entry already holds a match, otherwise exactly the prefixes
+\* without an unexpired entry.
 RefC(n) == Core(n) \cup Opt(n)
 RefQ(n, cache) ==
     IF \E k \in RefC(n) : Valid(cache, n.h[k].p) /\ n.h[k] \in cache[n.h[k].p].hs
